@@ -253,6 +253,11 @@ def canon_cond(term, c, F=None, domains=None):
         t = t[2]
         neg = not neg
     boolish = False
+    if t[0] == 'discr' and isinstance(t[1], tuple) and t[1] and t[1][0] == 'chk':
+        # discriminant of a.checked_sub(b): None (0) iff a < b
+        k_ = c[1] if c[0] == 'eq' else (1 - next(iter(c[1])) if c[0] == 'ne' and len(c[1]) == 1 and next(iter(c[1])) in (0, 1) else None)
+        if k_ in (0, 1):
+            return (('bin', 'Lt', t[1][1], t[1][2]), ('eq', 1 if k_ == 0 else 0))
     if t[0] == 'call' and t[1] in ('eq', 'ne') and len(t[2]) == 2:
         a, b = t[2]
         if t[1] == 'ne':
@@ -504,6 +509,9 @@ class SizeFlow:
                 sf.domains[dterm] = {0, 1}
                 cases = tuple(sorted([(((dterm, ('eq', 0)),), dflt.key()), (((dterm, ('eq', 1)),), inner.key())], key=repr))
                 val = ('lin', Lin.atom(('cases', cases)).key())
+            elif base == 'checked_sub' and len(cargs) == 2 and re.search(r'<impl (u8|u16|u32|u64|usize)>::checked_sub$', nm):
+                # None iff a < b, otherwise Some(a - b): kept as a term of its own, conditions on it are comparisons (canon_cond)
+                val = ('chk', cargs[0], cargs[1])
             elif base == 'fold' and len(cargs) == 3:
                 coll = coll_of(cargs[0])
                 acc = ('ACC',)
@@ -571,6 +579,31 @@ class SizeFlow:
                     if re.search(epat, nm):
                         l = sf.size_of_call(sfn, [cargs[i] for i in idx], targs)
                         ev = ('prop', l, short(nm), cargs[0], cargs[len(idx)])
+            if ev is None and base in ('for_each', 'try_for_each') and len(cargs) == 2 and cargs[1][0] == 'closure' and 'Iterator' in nm:
+                # `items.iter().try_for_each(|x| x.encode(buf))`: what the closure appends for one item, once per item
+                src_ = cargs[0]
+                per_item_map = None
+                for _ in range(6):
+                    while isinstance(src_, tuple) and src_ and src_[0] in ('ref', 'deref'):
+                        src_ = src_[1]
+                    if isinstance(src_, tuple) and src_ and src_[0] == 'call' and short(src_[1]) in ('copied', 'cloned', 'by_ref') and src_[2]:
+                        src_ = src_[2][0]
+                    elif isinstance(src_, tuple) and src_ and src_[0] == 'call' and short(src_[1]) == 'map' and len(src_[2]) == 2:
+                        per_item_map = src_[2][1]       # the mapped value is what the closure receives; its size does not depend on it
+                        src_ = src_[2][0]
+                    else:
+                        break
+                coll = coll_of(src_)
+                cl_body = sf.F.bodies.get(cargs[1][1])
+                if cl_body is None:
+                    raise Unsupported('closure body %s missing' % cargs[1][1])
+                item = ('item', coll)
+                res_ = sf.emit_of_call(cargs[1][1], [('tuple', tuple(cargs[1][2])), item], tyargs)
+                lins = {r_[1].key() for r_ in res_}
+                if len(lins) != 1:
+                    raise Unsupported('the closure of %s appends different amounts on different paths in %s' % (base, b.path))
+                per = res_[0][1]
+                ev = ('loop', mk_sum(coll, per), base, coll, list(res_[0][2]) if len(res_[0]) > 2 else [])
             if ev is None and emit and base == 'len' and 'BytePages' in nm:
                 pass
             if ev is not None:
@@ -701,6 +734,8 @@ class SizeFlow:
         k = t[0]
         if k == 'lin':
             return thaw(t[1])
+        if k == 'field' and t[2] == '0' and isinstance(t[1], tuple) and t[1][0] == 'downcast' and t[1][2] == 'Some' and isinstance(t[1][1], tuple) and t[1][1][0] == 'chk':
+            return self.lin(t[1][1][1]).sub(self.lin(t[1][1][2]))
         if k == 'const' and isinstance(t[1], int):
             return Lin(t[1])
         if k == 'cast':
